@@ -50,6 +50,7 @@ type desc struct {
 	Cutoff  float64     `json:"cutoff,omitempty"`
 	NoMarch bool        `json:"no_march,omitempty"` // marching cases: only AddField vs AddFieldParallel
 	Seam    bool        `json:"seam,omitempty"`     // marching cases: surface extremes placed around a block border
+	ParOnly bool        `json:"par_only,omitempty"` // marching cases for the -race binary: parallel variants only
 	Race    bool        `json:"race,omitempty"`     // replay: execute with the -race binary
 	RaceSub bool        `json:"race_sub,omitempty"` // part of the subset executed by the -race binary in this tier
 	Report  string      `json:"report,omitempty"`   // race cases: the detector's report (informational)
@@ -674,7 +675,7 @@ func buildPlan(tier string, seed uint64, n int) []desc {
 	for i, d := range fixedMarch() {
 		// quick: the 8-block canvas is marched by the normal binary only (18 s under -race); its accumulation is
 		// covered under -race by the accumulation-only items below
-		d.RaceSub = thorough || i == 1 || i == 6
+		d.RaceSub = thorough || i == 1
 		plan = append(plan, d)
 	}
 	// surfaces whose extremes lie in / next to the seam layer between two blocks
@@ -691,12 +692,54 @@ func buildPlan(tier string, seed uint64, n int) []desc {
 		d.RaceSub = thorough && k%8 == 0
 		plan = append(plan, d)
 	}
+	// more jobs than pool workers.  AddFieldParallel and marchFloat1Parallel start runtime.NumCPU() workers
+	// (GOMAXPROCS does not change that): a tube along one axis is ONE field with one job per spanned chunk and
+	// attribute, and every spanned block carries surface, so some worker takes a second job / block.
+	// (For the mesh entry points the job count IS the pool size: 1..20 exhaustively and up to 4096 sampled,
+	// i.e. below, at, above and far above both GOMAXPROCS and NumCPU.)
+	ncpu := runtime.NumCPU()
+	tube := func(axis, from, chunks int) fieldDesc {
+		f := fieldDesc{R: 3.5, Tube: axis + 1}
+		for a := 0; a < 3; a++ {
+			f.C[a] = 50
+			f.Lo[a], f.Hi[a] = 50-7, 50+7
+		}
+		f.Lo[axis], f.Hi[axis] = from*100+6, (from+chunks)*100-6
+		f.C[axis] = (f.Lo[axis] + f.Hi[axis]) / 2
+		return f
+	}
+	many := func(axis, from, chunks, nfun, procs int) desc {
+		return desc{Entry: "march", NFun: nfun, Cutoff: 0, Procs: procs, Fields: []fieldDesc{tube(axis, from, chunks)}}
+	}
+	{
+		// > : marched, values compared (few OS threads keep finished block meshes waiting in the result channel)
+		d := many(2, -(ncpu+4)/2, ncpu+4, 1, 2)
+		plan = append(plan, d)
+		// the same under -race, parallel variants only
+		d.ParOnly, d.RaceSub, d.Procs = true, true, 0
+		plan = append(plan, d)
+		// >> : accumulation only, 2 attributes x (NumCPU+1) chunks jobs, both binaries
+		d = many(0, -3, ncpu+1, 2, 0)
+		d.NoMarch, d.RaceSub = true, true
+		plan = append(plan, d)
+	}
+	if thorough {
+		for k, chunks := range []int{ncpu, ncpu + 1, ncpu + 8, 2*ncpu + 8} {
+			d := many(k%3, -chunks/2, chunks, 1, []int{1, 2, 4, 0}[k])
+			plan = append(plan, d)
+			d.ParOnly, d.RaceSub, d.Procs = true, true, 0
+			plan = append(plan, d)
+		}
+		d := many(1, -ncpu, 2*ncpu, 2, 0)
+		d.NoMarch, d.RaceSub = true, true
+		plan = append(plan, d)
+	}
 	// accumulation only, repeated on fresh canvases (cheap; the -race binary needs the chunk allocations of
 	// several workers to overlap with each other and with the dispatcher): three attributes over two blocks,
 	// one attribute over eight and over twelve unallocated blocks
 	for _, d := range []desc{
-		{Entry: "march", NFun: 3, Cutoff: surfaceOffset, NoMarch: true, Reps: 4, Fields: []fieldDesc{sphereField([3]int{85, 10, 10}, [3]int{115, 40, 40}, 21)}},
-		{Entry: "march", NFun: 1, Cutoff: surfaceOffset, NoMarch: true, Reps: 3, Fields: []fieldDesc{sphereField([3]int{85, 85, 85}, [3]int{115, 115, 115}, 21)}},
+		{Entry: "march", NFun: 3, Cutoff: surfaceOffset, NoMarch: true, Reps: 3, Fields: []fieldDesc{sphereField([3]int{85, 10, 10}, [3]int{115, 40, 40}, 21)}},
+		{Entry: "march", NFun: 1, Cutoff: surfaceOffset, NoMarch: true, Reps: 2, Fields: []fieldDesc{sphereField([3]int{85, 85, 85}, [3]int{115, 115, 115}, 21)}},
 		{Entry: "march", NFun: 1, Cutoff: surfaceOffset, NoMarch: true, Reps: 2, Fields: []fieldDesc{sphereField([3]int{-20, 90, 90}, [3]int{110, 110, 110}, 21)}},
 	} {
 		d.RaceSub = true
@@ -771,6 +814,9 @@ func workerMain(run *hx.Run) {
 		if *fWRace && !d.RaceSub {
 			continue
 		}
+		if d.ParOnly && !*fWRace && *fOne == "" {
+			continue // executed by the -race worker only
+		}
 		if d.Entry == "march" || i%64 == 0 {
 			w.Flush() // bound what a crash can lose; the marker below names the case that was running
 		}
@@ -820,7 +866,7 @@ func driveSlice(bin string, race bool, run *hx.Run, one string, from0, planLen i
 	rep := childReport{results: map[int]wresult{}, crashes: map[int]string{}, races: map[int]string{}, nraces: map[int]int{}, allrace: map[int][]string{}}
 	tag := fmt.Sprintf("w%d", from0)
 	if race {
-		tag = "wrace"
+		tag = fmt.Sprintf("wrace%d", from0)
 	}
 	resFile := filepath.Join(run.OutDir, tag+"-results.jsonl")
 	os.Remove(resFile)
@@ -988,11 +1034,8 @@ func main() {
 	}
 
 	plan := buildPlan(run.Tier, run.Seed, run.N)
-	raceCh := make(chan childReport, 1)
-	if *fRaceBin != "" {
-		go func() { raceCh <- driveChild(*fRaceBin, true, run, "", len(plan), deadline) }()
-	}
-	// two normal children: the mesh cases and the (slow) marching cases run side by side
+	// The plan is cut into slices that run side by side in separate children: the mesh cases, and the (slow,
+	// partly single-threaded) marching cases in `parts` pieces, for the normal and for the -race binary.
 	split := len(plan)
 	for i, d := range plan {
 		if d.Entry == "march" {
@@ -1000,19 +1043,61 @@ func main() {
 			break
 		}
 	}
-	marchCh := make(chan childReport, 1)
-	go func() { marchCh <- driveSlice(self, false, run, "", split, len(plan), deadline) }()
-	rep := driveSlice(self, false, run, "", 0, split, deadline)
-	mrep := <-marchCh
-	for k, v := range mrep.results {
-		rep.results[k] = v
+	cuts := func(race bool, parts int) []int { // boundaries that spread the marching items evenly by count
+		var idx []int
+		for i := split; i < len(plan); i++ {
+			if !race || plan[i].RaceSub {
+				idx = append(idx, i)
+			}
+		}
+		out := []int{0, split}
+		for p := 1; p < parts; p++ {
+			if k := p * len(idx) / parts; k > 0 && k < len(idx) && idx[k] > out[len(out)-1] {
+				out = append(out, idx[k])
+			}
+		}
+		return append(out, len(plan))
 	}
-	for k, v := range mrep.crashes {
-		rep.crashes[k] = v
+	merge := func(dst *childReport, src childReport) {
+		for k, v := range src.results {
+			dst.results[k] = v
+		}
+		for k, v := range src.crashes {
+			dst.crashes[k] = v
+		}
+		for k, v := range src.races {
+			dst.races[k] = v
+		}
+		for k, v := range src.nraces {
+			dst.nraces[k] += v
+		}
+		for k, v := range src.allrace {
+			dst.allrace[k] = v
+		}
+		dst.ran += src.ran
+		if dst.failed == "" {
+			dst.failed = src.failed
+		}
 	}
-	if rep.failed == "" {
-		rep.failed = mrep.failed
+	t0 := time.Now()
+	runSlices := func(bin string, race bool, parts int) childReport {
+		c := cuts(race, parts)
+		ch := make(chan childReport, len(c))
+		for k := 0; k+1 < len(c); k++ {
+			go func(from, to int) { ch <- driveSlice(bin, race, run, "", from, to, deadline) }(c[k], c[k+1])
+		}
+		total := childReport{results: map[int]wresult{}, crashes: map[int]string{}, races: map[int]string{}, nraces: map[int]int{}, allrace: map[int][]string{}}
+		for k := 0; k+1 < len(c); k++ {
+			merge(&total, <-ch)
+		}
+		return total
 	}
+	raceCh := make(chan childReport, 1)
+	if *fRaceBin != "" {
+		go func() { raceCh <- runSlices(*fRaceBin, true, 2) }()
+	}
+	rep := runSlices(self, false, 3)
+	run.Extra["wall_s_normal_workers"] = math.Round(time.Since(t0).Seconds()*10) / 10
 	for i, d := range plan {
 		addPlain(run, d, i, rep)
 	}
@@ -1027,6 +1112,7 @@ func main() {
 	}
 	if *fRaceBin != "" {
 		rrep := <-raceCh
+		run.Extra["wall_s_all_workers"] = math.Round(time.Since(t0).Seconds()*10) / 10
 		total := 0
 		for i, d := range plan {
 			if d.RaceSub {
@@ -1060,6 +1146,11 @@ func kindOf(d desc) string {
 }
 
 func addPlain(run *hx.Run, d desc, i int, rep childReport) {
+	if d.ParOnly {
+		if _, ok := rep.results[i]; !ok {
+			return // a -race-only item
+		}
+	}
 	if msg, ok := rep.crashes[i]; ok {
 		dd := d
 		run.Add(hx.Case{Kind: kindOf(d), Desc: dd, Coq: "CRace 1 0", Key: d.key(), Nontriv: true,
